@@ -556,5 +556,71 @@ def r18_8(ctx):
     return r
 
 
+def r18_9(ctx):
+    """'the RTP send address can only move to an address from which RTP carrying the expected SSRC (when one is known) was
+    received'. While no SSRC is known every source is a probation candidate (early media arrives before the answer); the
+    winner is chosen among ALL recorded candidates. So the moment an expected SSRC becomes known (or changes), candidates
+    recorded under another SSRC have to go, or two early packets from anywhere outvote the real source. Decided:
+    expected_ssrc is written only by set_expected_ssrc (and the constructor); there, every path from the write to the
+    return either discards the whole probation state, or filters the candidates by their recorded SSRC against the new
+    value, or leaves by an edge on which nothing changed (same value), no SSRC is expected (0), or no probation runs."""
+    r = RuleResult("R18.9", "K3+K4", "a newly known expected SSRC discards the probation candidates recorded under another one")
+    writers = []
+    for b in ctx.facts.all_bodies():
+        if "::tests::" in b.name or not b.name.startswith("transports::ice::conn::"):
+            continue
+        for op in ("store", "swap"):
+            for bi, t, args in core.atomic_sites(b, "expected_ssrc", op):
+                writers.append((b, bi))
+    r.need("writers of expected_ssrc", len(writers), 1)
+    fn = "transports::ice::conn::IceConn::set_expected_ssrc"
+    for b, bi in writers:
+        if b.name != fn:
+            r.violate(b.name, "ssrc:writer", b.where(bi), "expected_ssrc is written outside set_expected_ssrc: the probation candidates are not re-examined")
+            continue
+        r.scope.append(fn)
+        discard = set(_discard_blocks(ctx, b))
+        for ci, t, path in b.calls():
+            if path and path.endswith("::retain") and t["a"] and mir.has_field(b.term_operand(t["a"][0]), "candidates"):
+                clo = [b.term_operand(a) for a in t["a"][1:]]
+                ok = False
+                for c in clo:
+                    if c[0] == "closure" and ctx.facts.has_body(c[1]):
+                        cb = ctx.facts.body(c[1])
+                        for sb in range(len(cb.blocks)):
+                            if cb.blocks[sb]["t"]["k"] == "switch" and mir.has_field(cb.switch_info(sb)[0], "ssrc"):
+                                ok = True
+                        for _bi, _si, st_ in cb.assigns():
+                            tv = cb.term_rvalue(st_["rv"])
+                            if tv[0] == "bin" and tv[1] in ("Eq", "Ne") and mir.has_field(tv, "ssrc"):
+                                ok = True
+                if ok:
+                    discard.add(ci)
+
+        def harmless(term, meaning, *_):
+            if term[0] == "bin" and term[1] in ("Eq", "Ne") and isinstance(meaning, bool):
+                equal = meaning is (term[1] == "Eq")
+                ops = (term[2], term[3])
+                prev = [o for o in ops if o[0] == "call" and mir.has_field(o, "expected_ssrc")]
+                newv = [o for o in ops if o[0] == "arg"]
+                if prev and newv:
+                    return equal                      # previous value == new value: nothing changed
+                if newv and any(mir.int_value(o) == 0 for o in ops if o[0] != "arg"):
+                    return equal                      # new value == 0: no SSRC is expected
+            if term[0] == "discr" and mir.has_field(term[1], "probation") and meaning == "None":
+                return True                           # no probation running
+            return False
+        exits = core.guard_edges(b, harmless)
+        reach = b.reachable([x for x, _ in b.succ_edges(bi)], cut_blocks=discard, cut_edges=exits)
+        leak = [x for x in reach if b.blocks[x]["t"]["k"] == "ret" and x not in b.cleanup]
+        if leak:
+            r.violate(fn, "ssrc:candidates-kept", b.where(bi),
+                      "set_expected_ssrc can return with candidates recorded under another (or no) expected SSRC still in the probation state: "
+                      "early packets from any source keep counting towards the winner")
+        else:
+            r.ok({"site": b.where(bi), "then": "candidates filtered by SSRC / probation replaced, or nothing changed"})
+    return r
+
+
 def run(ctx):
-    return [r18_1(ctx), r18_2(ctx), r18_3(ctx), r18_4(ctx), r18_5(ctx), r18_6(ctx), r18_7(ctx), r18_8(ctx)]
+    return [r18_1(ctx), r18_2(ctx), r18_3(ctx), r18_4(ctx), r18_5(ctx), r18_6(ctx), r18_7(ctx), r18_8(ctx), r18_9(ctx)]
